@@ -7,6 +7,7 @@ The class table (`Gen.Settings.classes`) and the per-class theorems `Gen.Setting
 lift them to all well-nested programs.
 -/
 import GPVerif.Gen.SettingsThms
+import GPVerif.Bridge.SettingsExt
 
 namespace C20
 open Settings Gen.Settings
@@ -129,5 +130,270 @@ example : ∀ d ∈ demo.classes, d ∈ classes ∧ d.id ∉ partialIds := by de
 example : (demo.run true (initialStore classes) []).raised = true := by decide +kernel
 example : ((demo.run true (initialStore classes) []).trace.map fun s => s cid_min_variance fid__global_half_value)
     = [some 8, some 17] := by decide +kernel
+
+/-! ## Wave 3
+
+### A. Fields a block does not name
+
+For the per-dtype settings (`keepParams`) an omitted argument / `None` means "keep": the generated `kept_*` theorems
+(`Gen/SettingsThms.lean`, one per class and dtype) state that such a field shows, inside the block, the value it had
+where the block was entered — for the class description translated from the source, whose constructor's defaulting
+expression (`x if x is not None else <captured value>`) is translated, not assumed.  Here: the declared defaults, and
+the lifting to nested blocks (an inner block that does not name a field shows the value of the enclosing block). -/
+
+def halfArg (k : Nat) : Frame := fun p => if p = fid_half_value then some k else none
+def dblArg (k : Nat) : Frame := fun p => if p = fid_double_value then some k else none
+
+/-- Every "keep" parameter (per-dtype settings) is declared with default `None` in the generated class table, so an
+omitted argument reaches the constructor as `None` and the `kept_*` theorems apply to it. -/
+theorem keep_params_default_none :
+    ∀ e ∈ keepParams, ∃ d ∈ classes, d.id = e.1 ∧ (e.2, some none) ∈ d.params := by decide +kernel
+
+/-- **an un-named field inherits the enclosing block** — in `with d₁(a₁): with d₂(a₂): probe`, an observer `e` that the
+outer block sets to `v` (`hv`, from a generated `entered_*`) and that the inner block keeps (`hk`, from a generated
+`kept_*`) shows `v` at the probe.  Any two classes, any store, with or without escalated warnings. -/
+theorem unnamed_inherits (strict : Bool) (d1 d2 : ClassDesc) (a1 a2 : Frame) (σ σ1 σ2 : Store) (e : Expr) (v : Val)
+    (h1 : enteredStore d1 a1 σ strict = some σ1) (h2 : enteredStore d2 a2 σ1 strict = some σ2)
+    (hv : e.eval ⟨σ1, fun _ => none, fun _ => none, false⟩ = v)
+    (hk : e.eval ⟨σ2, fun _ => none, fun _ => none, false⟩ = e.eval ⟨σ1, fun _ => none, fun _ => none, false⟩) :
+    ((Prog.withC d1 a1 (.withC d2 a2 .probe)).run strict σ []).trace.head?.map
+      (fun s => e.eval ⟨s, fun _ => none, fun _ => none, false⟩) = some v := by
+  simp only [enteredStore] at h1 h2
+  split at h1
+  · exact absurd h1 (by simp)
+  · split at h1
+    · exact absurd h1 (by simp)
+    · rename_i a0 a1'
+      have hs1 : (execAll (execAll ⟨σ, fun _ => none, a1, strict⟩ d1.m.init).1 d1.m.enter).1.store = σ1 := by
+        simpa using h1
+      split at h2
+      · exact absurd h2 (by simp)
+      · split at h2
+        · exact absurd h2 (by simp)
+        · rename_i b0 b1
+          have hs2 : (execAll (execAll ⟨σ1, fun _ => none, a2, strict⟩ d2.m.init).1 d2.m.enter).1.store = σ2 := by
+            simpa using h2
+          simp only [Prog.run, a0, a1', hs1, b0, b1, hs2, ↓reduceIte, Bool.false_eq_true, List.head?_cons, Option.map_some,
+            hk, hv]
+
+/-- Instance for `min_variance` and the double field (the shape of seeded change C20-9): the outer block names
+`double_value`, the inner block does not (it may name `float_value` / `half_value`): the probe shows the outer block's
+double value.  All stores, all other arguments. -/
+theorem min_variance_inner_inherits_outer_double (σ : Store) (a1 a2 : Frame) (h1 : (a1 fid_double_value).isSome = true)
+    (h2 : a2 fid_double_value = none) :
+    ((Prog.withC c_min_variance a1 (.withC c_min_variance a2 .probe)).run false σ []).trace.head?.map
+      (fun s => s cid_min_variance fid__global_double_value) = some (a1 fid_double_value) := by
+  have e1 := entered_min_variance_value_torch_double σ a1 h1
+  cases hσ1 : enteredStore c_min_variance a1 σ with
+  | none => rw [hσ1] at e1; simp at e1
+  | some σ1 =>
+    rw [hσ1] at e1
+    have k2 := kept_min_variance_value_torch_double σ1 a2 h2
+    cases hσ2 : enteredStore c_min_variance a2 σ1 with
+    | none => rw [hσ2] at k2; simp at k2
+    | some σ2 =>
+      rw [hσ2] at k2
+      simp only [Option.map_some, Option.some.injEq] at e1 k2
+      exact unnamed_inherits false c_min_variance c_min_variance a1 a2 σ σ1 σ2
+        (.cls cid_min_variance fid__global_double_value) _ hσ1 hσ2 e1 k2
+
+/-- non-vacuity: the hypotheses of `unnamed_inherits` / `kept_*` are met — outer `double_value`, inner `half_value` only:
+float keeps the default (atom 3), double shows the outer value, half the inner one. -/
+example : ((Prog.withC c_min_variance (dblArg 8) (.withC c_min_variance (halfArg 9) .probe)).run false
+    (initialStore classes) []).trace.map (fun s => (s cid_min_variance fid__global_float_value,
+      s cid_min_variance fid__global_double_value, s cid_min_variance fid__global_half_value))
+    = [(some 3, some 8, some 9)] := by decide +kernel
+example : (dblArg 8) fid_double_value = some 8 ∧ (halfArg 9) fid_double_value = none := by decide
+
+/-! ### B. Multi-manager `with`, `contextlib.ExitStack`, threads (`Model/SettingsExt.lean`)
+
+The settings classes are plain classes with `__enter__`/`__exit__` (no `contextlib.ContextDecorator`): they cannot be
+used as decorators; the correspondence checks that on every run (cell `decorator`). -/
+
+/-- `XProg` is a conservative extension: a single-manager program run as an `XProg` gives exactly `Prog.run`. -/
+theorem ofProg_run (strict : Bool) (p : Prog) : ∀ (σ : Store) (pd : List Entered) (tr : List Store),
+    (XProg.ofProg p).run strict σ pd tr =
+      ⟨(p.run strict σ tr).store, (p.run strict σ tr).raised, (p.run strict σ tr).trace, pd⟩ := by
+  induction p with
+  | skip => intro σ pd tr; rfl
+  | probe => intro σ pd tr; rfl
+  | raise => intro σ pd tr; rfl
+  | seq p q ihp ihq =>
+    intro σ pd tr
+    simp only [XProg.ofProg, XProg.run, Prog.run, ihp]
+    split
+    · rfl
+    · rw [ihq]
+  | withC d a body ih =>
+    intro σ pd tr
+    simp only [XProg.ofProg, XProg.run, Prog.run, enter1_eq]
+    by_cases h0 : (execAll ⟨σ, fun _ => none, a, strict⟩ d.m.init).2 = true
+    · simp only [h0, ↓reduceIte]
+    · by_cases h1 : (execAll (execAll ⟨σ, fun _ => none, a, strict⟩ d.m.init).1 d.m.enter).2 = true
+      · simp only [h0, h1, ↓reduceIte, Bool.false_eq_true]
+      · simp only [h0, h1, ↓reduceIte, Bool.false_eq_true, ih, unwind, Bool.or_false]
+
+/-- **multi-manager `with`** — `with d₁(a₁), d₂(a₂), …: body` (operational definition: enter left to right, unwind what
+was entered in reverse order, also when a later `__init__`/`__enter__` raises) behaves exactly like the nested
+single-manager blocks `with d₁(a₁): with d₂(a₂): …: body` — same store, same exception status, same probes, for every
+class table (no restoration hypothesis), every store and every body. -/
+theorem withMany_eq_nested (strict : Bool) (items : List (ClassDesc × Frame)) (body : XProg) (σ : Store)
+    (pd : List Entered) (tr : List Store) :
+    (XProg.withMany items body).run strict σ pd tr = (XProg.nest items body).run strict σ pd tr := by
+  have := withMany_aux strict body pd tr items σ []
+  simp only [unwind, Bool.false_or] at this
+  simp only [XProg.run]
+  exact this
+
+/-- **scoped, extended** — every well-formed program with multi-manager `with` statements and `ExitStack`s over restoring
+classes leaves the store (and the enclosing `ExitStack`) exactly as it found it, on every exit path. -/
+theorem xscoped_of_restores (strict : Bool) (p : XProg) (hw : p.wf false = true)
+    (hp : ∀ d ∈ p.classes, Restores d) (σ : Store) (pd : List Entered) (tr : List Store) :
+    (p.run strict σ pd tr).store = σ ∧ (p.run strict σ pd tr).pend = pd := by
+  obtain ⟨n, e, g, z⟩ := run_good strict p false hw hp σ pd tr
+  have hn := z rfl; subst hn
+  exact ⟨g.nil_eq, e⟩
+
+/-- … for the generated class table (minus `partialIds`). -/
+theorem xscoped_generated (strict : Bool) (p : XProg) (hw : p.wf false = true)
+    (hp : ∀ d ∈ p.classes, d ∈ classes ∧ d.id ∉ partialIds) (σ : Store) (pd : List Entered) (tr : List Store) :
+    (p.run strict σ pd tr).store = σ :=
+  (xscoped_of_restores strict p hw (fun d hd => restores_all d (hp d hd).1 (hp d hd).2) σ pd tr).1
+
+/-- **a later manager fails to enter** — in `with d₁(a₁), d₂(a₂): body`, if `d₁` enters and the constructor or `__enter__`
+of `d₂` raises, then `d₁.__exit__` has run (the store is the original one), the exception propagates and the body
+never ran (no probe recorded). -/
+theorem with2_later_enter_raises (strict : Bool) (d1 d2 : ClassDesc) (a1 a2 : Frame) (body : XProg)
+    (σ σ1 : Store) (pd : List Entered) (tr : List Store) (h1 : Restores d1) (h2 : Restores d2)
+    (he : enteredStore d1 a1 σ strict = some σ1) (hr : enteredStore d2 a2 σ1 strict = none) :
+    ((XProg.withMany [(d1, a1), (d2, a2)] body).run strict σ pd tr).store = σ ∧
+    ((XProg.withMany [(d1, a1), (d2, a2)] body).run strict σ pd tr).raised = true ∧
+    ((XProg.withMany [(d1, a1), (d2, a2)] body).run strict σ pd tr).trace = tr := by
+  rw [enteredStore_eq_enter1] at he hr
+  cases e1 : enter1 strict d1 a1 σ with
+  | mk s1 o1 =>
+    rw [e1] at he
+    cases o1 with
+    | none => simp at he
+    | some ρ1 =>
+      simp only [Option.map_some, Option.some.injEq] at he
+      subst he
+      cases e2 : enter1 strict d2 a2 s1 with
+      | mk s2 o2 =>
+        rw [e2] at hr
+        cases o2 with
+        | some ρ2 => simp at hr
+        | none =>
+          have hs2 := enter1_none_store h2 e2
+          subst hs2
+          have hu := unwind_good (Good.cons h1 e1 (Good.nil σ))
+          simp only [XProg.run, enterMany, e1, e2, hu, and_self]
+
+/-- What well-formedness excludes is really not scoped: `es.enter_context(…)` inside a `with` block nested in the
+`with ExitStack()` body lets the registered manager outlive that block; the store is left changed (kernel-evaluated
+witness over the generated `min_variance`). -/
+def escape : XProg :=
+  .stack (.seq (.withC c_min_variance (halfArg 8) (.enterCtx c_min_variance (halfArg 9))) .probe)
+
+theorem exitstack_escape_not_scoped :
+    (escape.run false (initialStore classes) [] []).store cid_min_variance fid__global_half_value
+      ≠ initialStore classes cid_min_variance fid__global_half_value := by decide +kernel
+
+example : escape.wf false = false := by decide
+example : ∀ d ∈ escape.classes, d ∈ classes ∧ d.id ∉ partialIds := by decide +kernel
+
+/-! #### Threads: the store is process-global — cross-thread isolation is NOT claimed -/
+
+/-- **documented behaviour, not a violation** — a block entered by thread `tA` is visible to a probe of any thread `tB`:
+the settings are class attributes, one store for the whole process. -/
+theorem thread_block_visible_in_other_thread (strict : Bool) (tA tB : Nat) (d : ClassDesc) (args : Frame)
+    (σ σ' : Store) (he : enteredStore d args σ strict = some σ') :
+    (runThreads strict [.enter tA d args, .probe tB] σ).trace = [σ'] := by
+  rw [enteredStore_eq_enter1] at he
+  cases e1 : enter1 strict d args σ with
+  | mk s1 o1 =>
+    rw [e1] at he
+    cases o1 with
+    | none => simp at he
+    | some ρ1 =>
+      simp only [Option.map_some, Option.some.injEq] at he
+      subst he
+      simp only [runThreads, List.foldl, TEv.step, e1]
+
+/-- If the blocks of two threads happen to be globally well nested (B enters after A and leaves before A), both are
+restored and A sees B's block while it is open. -/
+theorem threads_lifo_scoped (strict : Bool) (tA tB : Nat) (dA dB : ClassDesc) (aA aB : Frame) (σ σ1 σ2 : Store)
+    (hne : tA ≠ tB) (hA : Restores dA) (hB : Restores dB)
+    (h1 : enteredStore dA aA σ strict = some σ1) (h2 : enteredStore dB aB σ1 strict = some σ2) :
+    (runThreads strict [.enter tA dA aA, .enter tB dB aB, .probe tA, .exit tB, .exit tA] σ).store = σ ∧
+    (runThreads strict [.enter tA dA aA, .enter tB dB aB, .probe tA, .exit tB, .exit tA] σ).trace = [σ2] := by
+  rw [enteredStore_eq_enter1] at h1 h2
+  cases e1 : enter1 strict dA aA σ with
+  | mk s1 o1 =>
+    rw [e1] at h1
+    cases o1 with
+    | none => simp at h1
+    | some ρ1 =>
+      simp only [Option.map_some, Option.some.injEq] at h1
+      subst h1
+      cases e2 : enter1 strict dB aB s1 with
+      | mk s2 o2 =>
+        rw [e2] at h2
+        cases o2 with
+        | none => simp at h2
+        | some ρ2 =>
+          simp only [Option.map_some, Option.some.injEq] at h2
+          subst h2
+          obtain ⟨_, hx2⟩ := exit_after_enter1 hB e2
+          obtain ⟨_, hy2⟩ := exit_after_enter1 hA e1
+          have hne' : ¬ tB = tA := fun h => hne h.symm
+          simp [runThreads, List.foldl, TEv.step, e1, e2, hne, hne', hx2, hy2]
+
+/-- … and when they interleave otherwise (A enters, B enters, A leaves, B leaves) the store is NOT restored: B's
+`__exit__` writes back what B captured, which was A's value (kernel-evaluated witness).  This is why the property
+is claimed per thread of control only. -/
+theorem threads_interleaved_not_scoped :
+    (runThreads false [.enter 0 c_min_variance (halfArg 8), .enter 1 c_min_variance (halfArg 9), .exit 0, .exit 1]
+      (initialStore classes)).store cid_min_variance fid__global_half_value
+      ≠ initialStore classes cid_min_variance fid__global_half_value := by decide +kernel
+
+/-- The driver runs every program from `ofTable (tabOf 64 (initialStore classes)) (initialStore classes)` (a table
+computed once instead of a search of the class list on every lookup): that is the same store. -/
+theorem ofTable_tabOf (n : Nat) (σ : Store) : ofTable (tabOf n σ) σ = σ := by
+  funext c f
+  simp only [ofTable, tabOf, Array.getElem?_map, Array.getElem?_range]
+  by_cases hc : c < n
+  · by_cases hf : f < n
+    · simp [hc, hf]
+    · simp [hc, hf]
+  · simp [hc]
+
+/-! #### Non-vacuity of the extended theorems -/
+
+/-- `with fast_pred_var(..), min_variance(half): probe; with ExitStack() as es: es.enter_context(min_variance(double));
+probe; es.enter_context(debug(False)); probe; raise` -/
+def xdemo : XProg :=
+  .withMany [(c_fast_pred_var, fun p => if p = fid_state then some 7 else if p = fid_num_probe_vectors then some 5 else none),
+             (c_min_variance, halfArg 8)]
+    (.seq .probe (.stack (.seq (.enterCtx c_min_variance (dblArg 9)) (.seq .probe
+      (.seq (.enterCtx c_debug (fun p => if p = fid_state then some 6 else none)) (.seq .probe .raise))))))
+
+example : xdemo.wf false = true := by decide
+example : ∀ d ∈ xdemo.classes, d ∈ classes ∧ d.id ∉ partialIds := by decide +kernel
+example : (xdemo.run false (initialStore classes) [] []).raised = true := by decide +kernel
+example : ((xdemo.run false (initialStore classes) [] []).trace.map fun s =>
+    (s cid_min_variance fid__global_double_value, s cid_min_variance fid__global_half_value, s cid_debug fid__state))
+    = [(some 9, some 8, some 6), (some 9, some 8, none), (some 16, some 8, none)] := by decide +kernel
+example : (enteredStore c_min_variance (halfArg 8) (initialStore classes) false).isSome = true ∧
+    (enteredStore c_debug (fun p => if p = fid_state then some 6 else none)
+      ((enteredStore c_min_variance (halfArg 8) (initialStore classes) false).getD (initialStore classes)) false).isSome = true ∧
+    (0 : Nat) ≠ 1 := by decide +kernel
+/-- `with2_later_enter_raises`: `with min_variance(half=…), checkpoint_kernel(5):` under `-W error` — the second
+`__enter__` raises (DeprecationWarning escalated), and so does `observation_nan_policy("bogus")` in its constructor. -/
+example : (enteredStore c_min_variance (halfArg 8) (initialStore classes) true).isSome = true ∧
+    enteredStore c_checkpoint_kernel (fun p => if p = fid_value then some 5 else none)
+      (((enteredStore c_min_variance (halfArg 8) (initialStore classes) true).getD (initialStore classes))) true = none ∧
+    enteredStore c_observation_nan_policy (fun p => if p = fid_value then some 5 else none)
+      (initialStore classes) false = none := by decide +kernel
 
 end C20
